@@ -10,3 +10,7 @@ open RV.C13
 #print axioms jsonld_buggy_breaks_frame
 #print axioms foreign_graph_copy_is_write
 #print axioms skolemize_into_same_store_is_write
+#print axioms namespaces_exact
+#print axioms view_read_frame
+#print axioms aggregate_reads
+#print axioms bindings_idempotent
